@@ -13,6 +13,22 @@ CLAIMED = {
             'Trusted: Lean kernel, propext/Classical.choice/Quot.sound, extract.py, the correspondence harness (sets compared sorted). '
             'Modelled, not verified: the dictionary walks of TokenCategoryHierarchyMapper (hand-modelled, validated exhaustively).',
             'DESIGN.md §5 C11'),
+    'C09': ('Lean 4 proof: finite base-40 core (7x5x40x2) by decide +kernel lifted to every octave by an omega octave-shift lemma; algebraic laws by lookup-table invariants; translator-regenerated tables + exhaustive 25 200-case correspondence',
+            'Theorems C09_exact (every letter, alteration -2..2, octave in Z, all 40 generated intervals, both directions, against an independent '
+            'letter/semitone specification derived from interval names), C09_inverse, C09_unison, C09_octave, C09_fourth_fifth, C09_compose, C09_failure '
+            '(fails exactly on the unused chroma 22) and C09_inverse_spelling (string level), about a string-faithful model of _parse_pitch / name setter / '
+            'to_transposed / export_pitch over tables regenerated from pitch_models.py and transposer.py on every run; tied to kernpy.transpose by the '
+            'exhaustive grid of the property in both tiers (plus further octaves in thorough).',
+            'Trusted: Lean kernel, the three standard axioms, extract.py, correspondence harness. Modelled not verified: the string functions of '
+            'pitch_models.py (hand-modelled; ASCII only), validated exhaustively on the grid and on random ASCII strings for error classes.',
+            'DESIGN.md §5 C09'),
+    'C16': ('Lean 4 proof: list-level lemmas about replicate/filter for every octave in Z; write-site inventory theorem over translator output; exhaustive correspondence',
+            'Theorems C16_import, C16_export, C16_roundtrip, C16_spell_injective (all letters, alterations -3..3, every octave in Z), C16_export_pure / '
+            'C16_export_twice (every pitch object) and C16_no_write_sites (the regenerated list of attribute assignments inside export_pitch is empty), '
+            'C16_rejects_four; tied by the exhaustive 7x7x11 grid, each pitch exported twice with before/after snapshots.',
+            'Trusted: Lean kernel, standard axioms, extract.py (AST walk for write sites), harness. Purity of the real export_pitch is established by the '
+            'write-site inventory plus snapshots, not by the (pure-by-construction) model alone.',
+            'DESIGN.md §5 C16'),
 }
 
 NOT_YET = {}
